@@ -285,10 +285,19 @@ def check(pid, tier, seed):
         path = write_replay(pid, "monitor", f["seed"], n, {"seed": f["seed"], "monitor": f["monitor"], "signature": f["signature"],
                                                             "what": f["what"], "failing_event": f["event"], "events": f["events"]})
         violations.append(("monitor", path, False))
+    pure_soft = []
     for d in pure_divs:
+        if spec.get("pure_only_panics") and not (isinstance(d.get("impl"), dict) and "panic" in d["impl"]):
+            pure_soft.append(d)       # a different typed result is not a failing input of this property
+            continue
         n += 1
         path = write_replay(pid, "pure", seed, n, d)
         violations.append(("pure", path, False))
+        new[("pure", n)] = d
+    if pure_soft and not new:
+        path = write_replay(pid, "correspondence", seed, 0, {"broken_theorem_or_stream": "pure-function correspondence (%s)" % pure_soft[0].get("fn"),
+                                                              "detail": pure_soft[0], "others": len(pure_soft) - 1})
+        violations.append(("correspondence", path, True))
     # a correspondence break that is itself a failing input of the property (e.g. bytes canonical under the
     # pinned protobuf definition that the bindings do not return, a non-canonical type URL)
     for d in rel_divs:
